@@ -123,6 +123,8 @@ def check(ck):
         len(du[0][1].args) == 1 and (dump(du[0][1].args[0]) == ilv or prov.origin(g, du[0][0], du[0][1].args[0]) == t)
     ck.require(okk, "C20.3", "%s: fields.difference_update(%s) before the field loop" % (where, ilv), "dominates the loop",
                "ignored names are not removed from the field set before the fields are dumped", q.loc(fd, iln))
+    if "jsonclass._find_fields" not in prog.funcs:
+        raise AnalysisError("anchor vanished: function jsonrpclib.jsonclass._find_fields (moved or renamed)")
     ff = q.call_sites(prog, fd, lambda r, c: q.is_func(r, "jsonclass._find_fields"))
     ck.require(len(ff) == 1 and ff[0][0].id in dom[du[0][0].id] if du else False, "C20.3", "%s: fields = _find_fields(obj)" % where, "filtered set is the field set",
                "the filtered set is not the object's field set", q.loc(fd, fd.node))
@@ -138,7 +140,15 @@ def check(ck):
         for c in node_calls(n):
             if isinstance(c.func, ast.Name) and c.func.id in ("hasattr", "getattr") and len(c.args) >= 2 and dump(c.args[0]) == "obj":
                 uses.append((n, c))
-    names_used = sorted(set(dump(c.args[1]) for (_n, c) in uses))
+    def _kind(n_, e_):
+        """what the attribute name is: one of the two configured names, or a member of the object's field set"""
+        t_ = prov.origin(g, n_, e_)
+        if dump(e_) in ("serialize_method", "ignore_attribute"):
+            return dump(e_)
+        if all(a_[0] == "elem" and all(b_[0] == "call" and b_[1] == ("global", "_find_fields") for b_ in prov.value_alts(a_[1])) for a_ in prov.value_alts(t_)):
+            return "attr_name"
+        return dump(e_)
+    names_used = sorted(set(_kind(n_, c.args[1]) for (n_, c) in uses))
     ck.require(names_used == ["attr_name", "ignore_attribute", "serialize_method"], "C20.4", "%s: attribute names consulted on obj" % where,
                "serialize_method / ignore_attribute variables (and field names)",
                "dump consults the object with names %s: the configured names must be used" % names_used, q.loc(fd, fd.node))
